@@ -4,6 +4,8 @@ mod verif_kani {
     use super::*;
 
     fn fmt_stub(_args: std::fmt::Arguments<'_>) -> String { String::new() }
+    /// anyhow captures a backtrace for every error (environment lookup, unwinding machinery): irrelevant to the property
+    fn bt_stub() -> std::backtrace::Backtrace { std::backtrace::Backtrace::disabled() }
 
     fn hexval(c: u8) -> Option<u8> {
         match c { b'0'..=b'9' => Some(c - b'0'), b'a'..=b'f' => Some(c - b'a' + 10), b'A'..=b'F' => Some(c - b'A' + 10), _ => None }
@@ -14,6 +16,7 @@ mod verif_kani {
     #[kani::proof]
     #[kani::unwind(64)]
     #[kani::stub(std::fmt::format, fmt_stub)]
+    #[kani::stub(std::backtrace::Backtrace::capture, bt_stub)]
     fn urlencode_exact_and_roundtrip() {
         let data: [u8; 20] = kani::any();
         let mut out = [0u8; 64];
@@ -37,6 +40,7 @@ mod verif_kani {
     #[kani::proof]
     #[kani::unwind(70)]
     #[kani::stub(std::fmt::format, fmt_stub)]
+    #[kani::stub(std::backtrace::Backtrace::capture, bt_stub)]
     fn urldecode_exact() {
         // a string of `n` units (n <= 21), each unit either one char <= U+00FF (non-'%') or '%' + two arbitrary ASCII bytes
         let n: usize = kani::any();
@@ -90,5 +94,35 @@ mod verif_kani {
         kani::assume(i < 20);
         assert!(out[3 * i] == b'%' && out[3 * i + 1] == LOWER[(data[i] >> 4) as usize] && out[3 * i + 2] == LOWER[(data[i] & 15) as usize],
             "[C14.ident.encode.layout] %hh per byte, lowercase hex");
+    }
+
+    /// quick tier: every string of up to 8 units (plain ASCII byte or %xx with arbitrary ASCII x) is too short, whatever its length in bytes
+    #[kani::proof]
+    #[kani::unwind(26)]
+    #[kani::stub(std::fmt::format, fmt_stub)]
+    #[kani::stub(std::backtrace::Backtrace::capture, bt_stub)]
+    fn urldecode_short_rejected() {
+        let n: usize = kani::any();
+        kani::assume(n <= 8);
+        let mut buf = [0u8; 24];
+        let mut len = 0;
+        let mut i = 0;
+        while i < n {
+            if kani::any() {
+                let a: u8 = kani::any(); let b: u8 = kani::any();
+                kani::assume(a < 128 && b < 128);
+                buf[len] = b'%'; buf[len + 1] = a; buf[len + 2] = b;
+                len += 3;
+            } else {
+                let c: u8 = kani::any();
+                kani::assume(c < 128 && c != b'%');
+                buf[len] = c;
+                len += 1;
+            }
+            i += 1;
+        }
+        let s = unsafe { std::str::from_utf8_unchecked(&buf[..len]) };
+        assert!(urldecode_20_bytes(s).is_err(), "[C14.ident.decode.exactly_20] identifiers that are not exactly 20 bytes are rejected");
+        kani::cover!(len == 20);
     }
 }
